@@ -15,6 +15,13 @@
 //! layer, signature escape-coverage-incomplete). Every binary BCDD export is also read by the
 //! harness's own decoder and compared with the node list (binary-decode-mismatch).
 //!
+//! Two more keys on `import` lines are ignored by the model: `what=<label>` and
+//! `expect=<ok|err:load|err:import|reject:vars|reject:order|!ok>`, the verdict derived by hand from the
+//! importer's checks for the crafted boundary inputs (cases `boundary-*`, see `boundaries`: every
+//! guard of `import.rs` hit from both sides by a single-field patch of a real export); the run side
+//! compares it with the real importer's verdict (signature boundary-verdict). `gen --suite boundaries`
+//! writes these cases only.
+//!
 //! Oracle-only operations (stream `dddmp_fuzz`, no model): `truncall ...`, `fuzz ...` (see `step`).
 //!
 //! Oracle-only suite `gen --suite oom` (stream `dddmp_oom`, no model): `export` lines (reference
@@ -2965,13 +2972,28 @@ impl Scenario for Dddmp {
                     return "bad-op".into();
                 }
                 let not = cmpl == "not";
-                match (kind, not) {
+                let out = match (kind, not) {
                     ("bdd", _) => import_step::<BDDFunction>(nvars, &order, not, &file, ctx),
                     ("bcdd", _) => import_step::<BCDDFunction>(nvars, &order, not, &file, ctx),
                     ("zbdd", false) => import_step::<ZBDDFunction>(nvars, &order, false, &file, ctx),
                     ("mtbdd", false) => import_step::<MT>(nvars, &order, false, &file, ctx),
                     _ => "bad-op".into(),
+                };
+                // boundary families: the verdict derived by hand from the importer's checks (key
+                // ignored by the model), `!ok` = anything but acceptance
+                if let Some(exp) = kv(a, "expect") {
+                    let got = out.split(' ').next().unwrap_or("");
+                    let holds = if exp == "!ok" { got != "ok" && !got.starts_with("panic") && got != "bad-op" } else { got == exp };
+                    ctx.count("boundary-lines");
+                    ctx.count(&format!("boundary-{}", if got == "ok" { "accepted" } else { "rejected" }));
+                    if !holds {
+                        ctx.fail(
+                            "boundary-verdict",
+                            &format!("crafted boundary input `{}`: expected {exp}, the importer gives {got}", kv(a, "what").unwrap_or("?")),
+                        );
+                    }
                 }
+                out
             }
             "truncall" => {
                 let (Some(st), Some(roots), Some(w)) = (parse_settings(&ws[1..]), parse_roots(&ws[1..]), &self.world) else {
@@ -3508,6 +3530,796 @@ fn crafted(g: &mut G) {
     }
 }
 
+// ------------------------------------------------------------------------------------------------
+// boundary families: every comparison / index / separator guard of `import.rs` is hit from both
+// sides by a file that differs from a valid export in exactly one field (cases `boundary-*`).
+// All lines are ordinary `import` lines (model-compared); two extra keys are ignored by the model:
+// `what=<label>` and `expect=<ok|err:load|err:import|reject:vars|reject:order|!ok>` — the verdict
+// derived by hand from the importer's documented checks; the run side compares it with the real
+// importer's verdict (oracle signature `boundary-verdict`).
+
+/// a DDDMP file split into header lines (without line ends, incl. the `.nodes` line), node section
+/// and trailer, with single-field patching
+#[derive(Clone)]
+struct BFile {
+    hdr: Vec<Vec<u8>>,
+    body: Vec<u8>,
+    tail: Vec<u8>,
+    eol: Vec<u8>,
+}
+
+impl BFile {
+    fn parse(file: &[u8]) -> Option<BFile> {
+        let mut hdr = Vec::new();
+        let mut pos = 0;
+        loop {
+            let nl = pos + file[pos..].iter().position(|&b| b == b'\n')?;
+            let line = file[pos..nl].to_vec();
+            pos = nl + 1;
+            let done = line.starts_with(b".nodes");
+            hdr.push(line);
+            if done {
+                break;
+            }
+        }
+        let rest = &file[pos..];
+        let end = rest.len().checked_sub(5)?;
+        if &rest[end..] != b".end\n" {
+            return None;
+        }
+        Some(BFile { hdr, body: rest[..end].to_vec(), tail: b".end\n".to_vec(), eol: b"\n".to_vec() })
+    }
+    fn key_of(line: &[u8]) -> &[u8] {
+        let p = line.iter().position(|&b| b == b' ' || b == b'\t').unwrap_or(line.len());
+        &line[..p]
+    }
+    fn pos(&self, key: &str) -> usize {
+        self.hdr.iter().position(|l| Self::key_of(l) == key.as_bytes()).unwrap_or_else(|| panic!("boundary base has no {key} line"))
+    }
+    fn get(&self, key: &str) -> String {
+        let l = &self.hdr[self.pos(key)];
+        String::from_utf8_lossy(&l[key.len()..]).trim().to_string()
+    }
+    /// replace the whole line of `key`
+    fn raw(&self, key: &str, line: &[u8]) -> BFile {
+        let mut f = self.clone();
+        let p = f.pos(key);
+        f.hdr[p] = line.to_vec();
+        f
+    }
+    /// replace the value of `key`
+    fn set(&self, key: &str, val: &str) -> BFile {
+        self.raw(key, format!("{key} {val}").as_bytes())
+    }
+    fn drop(&self, key: &str) -> BFile {
+        let mut f = self.clone();
+        let p = f.pos(key);
+        f.hdr.remove(p);
+        f
+    }
+    /// insert a line before the line of `key`
+    fn before(&self, key: &str, line: &str) -> BFile {
+        let mut f = self.clone();
+        let p = f.pos(key);
+        f.hdr.insert(p, line.as_bytes().to_vec());
+        f
+    }
+    fn after(&self, key: &str, line: &str) -> BFile {
+        let mut f = self.clone();
+        let p = f.pos(key);
+        f.hdr.insert(p + 1, line.as_bytes().to_vec());
+        f
+    }
+    fn with_body(&self, body: &[u8]) -> BFile {
+        let mut f = self.clone();
+        f.body = body.to_vec();
+        f
+    }
+    fn with_tail(&self, tail: &[u8]) -> BFile {
+        let mut f = self.clone();
+        f.tail = tail.to_vec();
+        f
+    }
+    fn with_eol(&self, eol: &[u8]) -> BFile {
+        let mut f = self.clone();
+        f.eol = eol.to_vec();
+        f
+    }
+    /// ASCII node section: replace the 0-based line `idx`
+    fn node_line(&self, idx: usize, new: &[u8]) -> BFile {
+        let mut lines: Vec<Vec<u8>> = self.body.split(|&b| b == b'\n').map(|l| l.to_vec()).collect();
+        lines.pop(); // the empty piece after the last '\n'
+        lines[idx] = new.to_vec();
+        let mut body = Vec::new();
+        for l in lines {
+            body.extend_from_slice(&l);
+            body.push(b'\n');
+        }
+        self.with_body(&body)
+    }
+    fn bytes(&self) -> Vec<u8> {
+        let mut o = Vec::new();
+        for l in &self.hdr {
+            o.extend_from_slice(l);
+            o.extend_from_slice(&self.eol);
+        }
+        o.extend_from_slice(&self.body);
+        o.extend_from_slice(&self.tail);
+        o
+    }
+}
+
+/// the manager an `import` line describes
+#[derive(Clone)]
+struct BTarget {
+    kind: &'static str,
+    not: bool,
+    nvars: u32,
+    l2v: Vec<u32>,
+}
+
+fn bx(g: &mut G, t: &BTarget, what: &str, expect: &str, file: &[u8]) {
+    debug_assert!(!what.contains(char::is_whitespace));
+    writeln!(
+        g.w,
+        "import kind={} cmpl={} nvars={} order={} file={} what={what} expect={expect}",
+        t.kind,
+        if t.not { "not" } else { "id" },
+        t.nvars,
+        comma(&t.l2v),
+        to_hex(file)
+    )
+    .unwrap();
+}
+
+/// `write_escaped`
+fn b_esc(bytes: &[u8]) -> Vec<u8> {
+    let mut o = Vec::new();
+    for &b in bytes {
+        match b {
+            0x00 => o.extend_from_slice(&[0, 0]),
+            0x0a => o.extend_from_slice(&[0, 1]),
+            0x0d => o.extend_from_slice(&[0, 2]),
+            0x1a => o.extend_from_slice(&[0, 3]),
+            _ => o.push(b),
+        }
+    }
+    o
+}
+/// `encode_7bit` (escaped)
+fn b_7bit(n: u64) -> Vec<u8> {
+    let mut raw = vec![((n & 0x7f) << 1) as u8];
+    let mut v = n >> 7;
+    while v != 0 {
+        raw.insert(0, (((v & 0x7f) << 1) | 1) as u8);
+        v >>= 7;
+    }
+    b_esc(&raw)
+}
+
+/// a code of the binary format with its argument
+#[derive(Clone, Copy)]
+enum BC {
+    Term,
+    Abs(u64),
+    Rel(u64),
+    Rel1,
+}
+impl BC {
+    fn bits(self) -> u8 {
+        match self {
+            BC::Term => 0,
+            BC::Abs(_) => 1,
+            BC::Rel(_) => 2,
+            BC::Rel1 => 3,
+        }
+    }
+    fn arg(self) -> Vec<u8> {
+        match self {
+            BC::Abs(n) | BC::Rel(n) => b_7bit(n),
+            _ => Vec::new(),
+        }
+    }
+    fn label(self) -> String {
+        match self {
+            BC::Term => "term".into(),
+            BC::Abs(n) => format!("abs{n}"),
+            BC::Rel(n) => format!("rel{n}"),
+            BC::Rel1 => "rel1".into(),
+        }
+    }
+}
+/// one binary node record
+fn b_rec(var: BC, t: BC, e_compl: bool, e: BC) -> Vec<u8> {
+    let mut o = b_esc(&[(var.bits() << 5) | (t.bits() << 3) | ((e_compl as u8) << 2) | e.bits()]);
+    o.extend(var.arg());
+    o.extend(t.arg());
+    o.extend(e.arg());
+    o
+}
+
+/// h = x2 ? (x0 ? x3 : (x1 & x3)) : x3 and g = x0 ? x3 : (x1 & x3) over 5 variables (x4 unused)
+fn b_tt(f: impl Fn(&[bool]) -> bool, nvars: u32) -> String {
+    let n = 1usize << nvars;
+    let bits: Vec<bool> = (0..n).map(|a| f(&(0..nvars).map(|v| (a >> v) & 1 != 0).collect::<Vec<_>>())).collect();
+    let mut s = String::from("tt=");
+    for c in bits.chunks(4) {
+        let v = c.iter().enumerate().fold(0u32, |acc, (k, &b)| acc | ((b as u32) << k));
+        s.push(char::from_digit(v, 16).unwrap());
+    }
+    s
+}
+
+const B_ORDER: [u32; 5] = [2, 0, 4, 1, 3];
+
+/// a crafted base must be byte for byte what the real exporter writes for the same functions; if
+/// it is not (the exporter changed), a line that necessarily fails the verdict oracle is emitted
+fn b_check_base(g: &mut G, t: &BTarget, name: &str, crafted: &[u8], exported: Option<&(Vec<u8>, bool)>) {
+    match exported {
+        Some((f, false)) if f == crafted => {}
+        _ => {
+            writeln!(g.w, "# the crafted base `{name}` is not the file the real exporter writes: the boundary families below are not single-field patches of a valid export").unwrap();
+            bx(g, t, &format!("{name}-differs-from-real-export"), "base-is-a-real-export", crafted);
+        }
+    }
+}
+
+fn boundaries(g: &mut G) {
+    let names: Vec<String> = ["a", "b", "c", "d", "e"].iter().map(|s| s.to_string()).collect();
+    let bdd = BTarget { kind: "bdd", not: true, nvars: 5, l2v: B_ORDER.to_vec() };
+    let bcdd = BTarget { kind: "bcdd", not: true, nvars: 5, l2v: B_ORDER.to_vec() };
+    let h = |x: &[bool]| if x[2] { if x[0] { x[3] } else { x[1] && x[3] } } else { x[3] };
+    let gg = |x: &[bool]| if x[0] { x[3] } else { x[1] && x[3] };
+    let roots2 = |named: bool| {
+        vec![
+            RootSpec { func: "h".into(), name: if named { Some(b"f".to_vec()) } else { None } },
+            RootSpec { func: "g".into(), name: if named { Some(b"g".to_vec()) } else { None } },
+        ]
+    };
+    let st_a2 = ExpSettings { ascii: true, v3: false, strict: true, dd: String::new() };
+    let st_a3 = ExpSettings { ascii: true, v3: true, strict: true, dd: String::new() };
+    let st_b2 = ExpSettings { ascii: false, v3: false, strict: true, dd: String::new() };
+
+    // ---------------------------------------------------------------------------------------
+    // bases: real exports, re-stated literally (support rank = position by level: x2 x0 x1 x3)
+    g.case("boundary-bases");
+    // (1) BDD, ASCII, no names, two roots
+    let mut hu_real = None;
+    if g.mgr("bdd", 5, &B_ORDER, None) {
+        g.func("h", &b_tt(h, 5));
+        g.func("g", &b_tt(gg, 5));
+        hu_real = g.export(&st_a2, &roots2(false), false);
+    }
+    // the order of the two terminal records is the exporter's (read off the real file)
+    let t_first = hu_real
+        .as_ref()
+        .and_then(|(f, _)| BFile::parse(f))
+        .and_then(|b| b.body.split(|&c| c == b'\n').next().map(|l| l.to_vec()))
+        .unwrap_or_else(|| b"1 F 0 0".to_vec());
+    let (id_f, id_t) = if t_first.starts_with(b"1 T") { (2, 1) } else { (1, 2) };
+    let term_lines = if id_f == 1 { "1 F 0 0\n2 T 0 0\n" } else { "1 T 0 0\n2 F 0 0\n" };
+    let hu_text = format!(
+        ".ver DDDMP-2.0\n.mode A\n.varinfo 4\n.nnodes 6\n.nvars 5\n.nsuppvars 4\n.ids 0 1 2 3\n.permids 1 3 0 4\n.nroots 2\n.rootids 6 5\n.nodes\n{term_lines}3 3 {id_t} {id_f}\n4 2 3 {id_f}\n5 1 3 4\n6 0 5 3\n.end\n"
+    );
+    b_check_base(g, &bdd, "bdd-ascii-unnamed", hu_text.as_bytes(), hu_real.as_ref());
+    let hu = BFile::parse(hu_text.as_bytes()).unwrap();
+    bx(g, &bdd, "base-bdd-ascii-unnamed", "ok", &hu.bytes());
+    // (2) BDD, ASCII, version 3.0, variable and root names
+    let mut hn_real = None;
+    if g.mgr("bdd", 5, &B_ORDER, Some(&names)) {
+        g.func("h", &b_tt(h, 5));
+        g.func("g", &b_tt(gg, 5));
+        hn_real = g.export(&st_a3, &roots2(true), true);
+    }
+    let hn_text = format!(
+        ".ver DDDMP-3.0\n.mode A\n.varinfo 4\n.nnodes 6\n.nvars 5\n.nsuppvars 4\n.varnames a b c d e\n.suppvarnames a b c d\n.orderedvarnames c a e b d\n.ids 0 1 2 3\n.permids 1 3 0 4\n.nroots 2\n.rootids 6 5\n.rootnames f g\n.nodes\n{term_lines}3 3 {id_t} {id_f}\n4 2 3 {id_f}\n5 1 3 4\n6 0 5 3\n.end\n"
+    );
+    b_check_base(g, &bdd, "bdd-ascii-named", hn_text.as_bytes(), hn_real.as_ref());
+    let hn = BFile::parse(hn_text.as_bytes()).unwrap();
+    bx(g, &bdd, "base-bdd-ascii-named", "ok", &hn.bytes());
+    // (3) BCDD, ASCII and binary, one root
+    let (mut ca_real, mut cb_real) = (None, None);
+    if g.mgr("bcdd", 5, &B_ORDER, None) {
+        g.func("h", &b_tt(h, 5));
+        let r = [RootSpec { func: "h".into(), name: None }];
+        ca_real = g.export(&st_a2, &r, false);
+        cb_real = g.export(&st_b2, &r, false);
+    }
+    let c_hdr = |mode: &str| format!(".ver DDDMP-2.0\n.mode {mode}\n.varinfo 4\n.nnodes 5\n.nvars 5\n.nsuppvars 4\n.ids 0 1 2 3\n.permids 1 3 0 4\n.nroots 1\n.rootids 5\n.nodes\n");
+    let ca_text = format!("{}1 T 0 0\n2 3 1 -1\n3 2 2 -1\n4 1 2 3\n5 0 4 2\n.end\n", c_hdr("A"));
+    b_check_base(g, &bcdd, "bcdd-ascii", ca_text.as_bytes(), ca_real.as_ref());
+    let ca = BFile::parse(ca_text.as_bytes()).unwrap();
+    bx(g, &bcdd, "base-bcdd-ascii", "ok", &ca.bytes());
+    // binary records of the nodes 1..4 (the terminal, then the nodes of rank 3, 2, 1) and of the root
+    let pre4: Vec<u8> = [
+        b_rec(BC::Term, BC::Term, false, BC::Term),
+        b_rec(BC::Abs(3), BC::Term, true, BC::Term),
+        b_rec(BC::Rel1, BC::Rel1, true, BC::Term),
+        b_rec(BC::Rel1, BC::Abs(2), false, BC::Rel1),
+    ]
+    .concat();
+    let root5 = b_rec(BC::Rel1, BC::Rel1, false, BC::Abs(2));
+    let mut cb_bytes = c_hdr("B").into_bytes();
+    cb_bytes.extend_from_slice(&pre4);
+    cb_bytes.extend_from_slice(&root5);
+    cb_bytes.extend_from_slice(b".end\n");
+    b_check_base(g, &bcdd, "bcdd-binary", &cb_bytes, cb_real.as_ref());
+    let cb = BFile::parse(&cb_bytes).unwrap();
+    bx(g, &bcdd, "base-bcdd-binary", "ok", &cb.bytes());
+    // the binary file is kind-agnostic: BDD target
+    bx(g, &bdd, "base-bcdd-binary-into-bdd", "ok", &cb.bytes());
+
+    // ---------------------------------------------------------------------------------------
+    // header: counts and ranges (`DumpHeader::load` validation)
+    g.case("boundary-header-nnodes-rootids");
+    for (v, exp) in [("5", "err:load"), ("6", "ok"), ("7", "err:import"), ("06", "ok"), ("0", "err:load")] {
+        bx(g, &bdd, &format!("nnodes={v}"), exp, &hu.set(".nnodes", v).bytes());
+    }
+    // one node less than present, no root points at it: `1..=nnodes` stops early, `.end` is missing
+    bx(g, &bdd, "nnodes=5,rootids=5,4", "err:import", &hu.set(".nnodes", "5").set(".rootids", "5 4").bytes());
+    for (v, exp) in [
+        ("6 6", "ok"), ("6 7", "err:load"), ("6 -6", "ok"), ("6 -7", "err:load"), ("6 0", "err:load"), ("6 -0", "err:load"),
+        ("0 6", "err:load"), ("6 1", "ok"), ("6 -1", "ok"), ("7 6", "err:load"), ("6", "err:load"), ("6 5 4", "err:load"),
+        ("", "err:load"), ("6 -", "err:load"), ("6 - 5", "ok"), ("6 5 -", "ok"), ("6 --5", "err:load"), ("6 5-", "err:load"),
+        ("6 -5-", "err:load"), ("6 +5", "err:load"), ("6\t-5", "ok"),
+    ] {
+        bx(g, &bdd, &format!("rootids={}", v.replace([' ', '\t'], ",")), exp, &hu.set(".rootids", v).bytes());
+    }
+    for (v, exp) in [("1", "err:load"), ("2", "ok"), ("3", "err:load"), ("02", "ok"), ("", "err:load"), ("2 ", "ok"), ("2x", "err:load"), ("-2", "err:load")] {
+        bx(g, &bdd, &format!("nroots={}", v.replace(' ', "_")), exp, &hu.set(".nroots", v).bytes());
+    }
+    bx(g, &bdd, "nroots=0,rootids-empty", "ok", &hu.set(".nroots", "0").raw(".rootids", b".rootids").bytes());
+    bx(g, &bdd, "nroots=0,rootids-line-missing", "ok", &hu.set(".nroots", "0").drop(".rootids").bytes());
+    for (v, exp) in [("f", "err:load"), ("f g", "ok"), ("f g h", "err:load"), ("f  g ", "ok"), ("f\tg", "ok")] {
+        bx(g, &bdd, &format!("rootnames={}", v.replace([' ', '\t'], ",")), exp, &hn.set(".rootnames", v).bytes());
+    }
+    bx(g, &bdd, "rootnames-empty", "ok", &hn.raw(".rootnames", b".rootnames").bytes());
+    bx(g, &bdd, "rootnames-line-missing", "ok", &hn.drop(".rootnames").bytes());
+
+    g.case("boundary-header-nvars-nsuppvars");
+    // .nvars 5: the largest level in .permids is 4, the largest variable in .ids is 3
+    for (v, exp) in [("4", "err:load"), ("5", "ok"), ("6", "ok"), ("3", "err:load"), ("0", "err:load")] {
+        bx(g, &bdd, &format!("nvars={v}"), exp, &hu.set(".nvars", v).bytes());
+    }
+    for (v, exp) in [("4", "err:load"), ("5", "ok"), ("6", "err:load")] {
+        bx(g, &bdd, &format!("named,nvars={v}"), exp, &hn.set(".nvars", v).bytes());
+    }
+    for (v, exp) in [("3", "err:load"), ("4", "ok"), ("5", "err:load"), ("6", "err:load"), ("0", "err:load")] {
+        bx(g, &bdd, &format!("nsuppvars={v}"), exp, &hu.set(".nsuppvars", v).bytes());
+    }
+    // .nsuppvars == .nvars is legal (every variable in the support): 4 variables, order 2,0,1,3
+    {
+        let t4 = BTarget { kind: "bdd", not: true, nvars: 4, l2v: vec![2, 0, 1, 3] };
+        let f4 = hu.set(".nvars", "4").set(".permids", "1 2 0 3");
+        bx(g, &t4, "nsuppvars=nvars=4", "ok", &f4.bytes());
+        bx(g, &t4, "nsuppvars=5,nvars=4", "err:load", &f4.set(".nsuppvars", "5").bytes());
+        bx(g, &t4, "nsuppvars=5,nvars=4,five-ids", "err:load", &f4.set(".nsuppvars", "5").set(".ids", "0 1 2 3 4").set(".permids", "1 2 0 3 4").bytes());
+    }
+
+    g.case("boundary-header-ids-permids-auxids");
+    for (v, exp) in [
+        ("0 1 2 3", "ok"), ("0 1 2 4", "reject:order"), ("0 1 2 5", "err:load"), ("0 1 2 2", "err:load"), ("0 1 1 3", "err:load"),
+        ("0 0 2 3", "err:load"), ("0 2 1 3", "err:load"), ("1 0 2 3", "err:load"), ("0 1 2", "err:load"), ("0 1 2 3 4", "err:load"),
+        ("", "err:load"), ("0 1 2 3 ", "ok"), ("0\t1  2 \t3", "ok"), ("00 01 02 03", "ok"), ("0 1 2 -3", "err:load"), ("0 1 2 3x", "err:load"),
+        ("0 1 2 4294967295", "err:load"), ("0 1 2 4294967296", "err:load"),
+    ] {
+        bx(g, &bdd, &format!("ids={}", v.replace([' ', '\t'], ",")), exp, &hu.set(".ids", v).bytes());
+    }
+    // the same with .nvars 6 and a target of 6 variables: variable 4 is in range, 5 is the last one
+    {
+        let t6 = BTarget { kind: "bdd", not: true, nvars: 6, l2v: vec![2, 0, 4, 1, 3, 5] };
+        let f6 = hu.set(".nvars", "6");
+        bx(g, &t6, "nvars=6,ids=0,1,2,3", "ok", &f6.bytes());
+        bx(g, &t6, "nvars=6,ids=0,1,2,5", "ok", &f6.set(".ids", "0 1 2 5").set(".permids", "1 3 0 5").bytes());
+        bx(g, &t6, "nvars=6,ids=0,1,2,6", "err:load", &f6.set(".ids", "0 1 2 6").set(".permids", "1 3 0 5").bytes());
+        // (levels of the file need not be the levels of the target: only their relative order counts)
+        bx(g, &t6, "nvars=6,permids=1,3,0,5", "ok", &f6.set(".permids", "1 3 0 5").bytes());
+        bx(g, &t6, "nvars=6,permids=1,3,0,6", "err:load", &f6.set(".permids", "1 3 0 6").bytes());
+        // a target with fewer variables than the file's support needs: caller obligation
+        bx(g, &bdd, "nvars=6,ids=0,1,2,5,target-5", "reject:vars", &f6.set(".ids", "0 1 2 5").set(".permids", "1 3 0 5").bytes());
+    }
+    for (v, exp) in [
+        ("1 3 0 4", "ok"), ("1 3 0 5", "err:load"), ("1 3 0 2", "reject:order"), ("1 3 0 0", "err:load"), ("1 3 0 1", "err:load"),
+        ("1 1 0 4", "err:load"), ("1 3 0", "err:load"), ("1 3 0 4 2", "err:load"), ("", "err:load"), ("0 3 1 4", "reject:order"),
+        ("1 3 0 4294967295", "err:load"), ("1 3 0 4294967296", "err:load"), ("1 3 0 -4", "err:load"),
+    ] {
+        bx(g, &bdd, &format!("permids={}", v.replace(' ', ",")), exp, &hu.set(".permids", v).bytes());
+    }
+    for (v, exp) in [
+        ("7 8 9", "err:load"), ("7 8 9 10", "ok"), ("7 8 9 10 11", "err:load"), ("", "ok"), ("7", "err:load"), ("7 7 7 7", "ok"),
+        ("4294967295 0 0 0", "ok"), ("4294967296 0 0 0", "err:load"), ("0 0 0 4294967295", "ok"), ("0 0 0 4294967296", "err:load"),
+        ("7 8 9 x", "err:load"),
+    ] {
+        bx(g, &bdd, &format!("auxids={}", v.replace(' ', ",")), exp, &hu.after(".permids", &format!(".auxids {v}")).bytes());
+    }
+
+    g.case("boundary-header-name-counts");
+    for (key, vals) in [
+        (".varnames", vec![("a b c d", "err:load"), ("a b c d e", "ok"), ("a b c d e f", "err:load"), ("a  b\tc d e ", "ok")]),
+        (".orderedvarnames", vec![("c a e b", "err:load"), ("c a e b d", "ok"), ("c a e b d x", "err:load")]),
+        (".suppvarnames", vec![("a b c", "err:load"), ("a b c d", "ok"), ("a b c d x", "err:load")]),
+    ] {
+        for (v, exp) in vals {
+            bx(g, &bdd, &format!("{}={}", &key[1..], v.replace([' ', '\t'], ",")), exp, &hn.set(key, v).bytes());
+        }
+        // the section alone (the two others dropped), with its count off by one in both directions
+        let mut alone = hn.clone();
+        for k in [".varnames", ".orderedvarnames", ".suppvarnames"] {
+            if k != key {
+                alone = alone.drop(k);
+            }
+        }
+        bx(g, &bdd, &format!("only-{}", &key[1..]), "ok", &alone.bytes());
+        let full = hn.get(key);
+        let fewer = full.rsplit_once(' ').unwrap().0.to_string();
+        bx(g, &bdd, &format!("only-{}-one-fewer", &key[1..]), "err:load", &alone.set(key, &fewer).bytes());
+        bx(g, &bdd, &format!("only-{}-one-more", &key[1..]), "err:load", &alone.set(key, &format!("{full} x")).bytes());
+        bx(g, &bdd, &format!("only-{}-empty", &key[1..]), "ok", &alone.raw(key, key.as_bytes()).bytes());
+    }
+    // names that must agree
+    for (key, v, exp) in [
+        (".suppvarnames", "a b c e", "err:load"), (".suppvarnames", "x b c d", "err:load"), (".orderedvarnames", "c a e d b", "err:load"),
+        (".orderedvarnames", "c a x b d", "ok"), (".varnames", "a b c d x", "ok"), (".varnames", "a b c x e", "err:load"),
+    ] {
+        bx(g, &bdd, &format!("{}={}", &key[1..], v.replace(' ', ",")), exp, &hn.set(key, v).bytes());
+    }
+
+    g.case("boundary-header-number-limits");
+    // the last entry of a key counts: a first entry at / beyond the limit of the field's integer type
+    for (key, at, beyond) in [
+        (".nnodes", "18446744073709551615", "18446744073709551616"),
+        (".nroots", "18446744073709551615", "18446744073709551616"),
+        (".nvars", "4294967295", "4294967296"),
+        (".nsuppvars", "4294967295", "4294967296"),
+        (".ids", "0 1 2 4294967295", "0 1 2 4294967296"),
+        (".permids", "1 3 0 4294967295", "1 3 0 4294967296"),
+        (".rootids", "6 9223372036854775807", "6 9223372036854775808"),
+        (".rootids", "6 -9223372036854775807", "6 -9223372036854775808"),
+        (".rootids", "9223372036854775807", "9223372036854775808"),
+    ] {
+        let tag = |v: &str| v.rsplit(' ').next().unwrap().to_string();
+        bx(g, &bdd, &format!("first-{}={}", &key[1..], tag(at)), "ok", &hu.before(key, &format!("{key} {at}")).bytes());
+        bx(g, &bdd, &format!("first-{}={}", &key[1..], tag(beyond)), "err:load", &hu.before(key, &format!("{key} {beyond}")).bytes());
+    }
+    // counts far beyond what the file holds must not be used as capacities (MAX_PREALLOC)
+    bx(g, &bdd, "nroots=2^61,then-rootids-rootnames,then-nroots=2", "ok",
+        &hn.set(".nroots", "2305843009213693952").after(".rootnames", ".nroots 2").bytes());
+    bx(g, &bdd, "nroots=2^61,rootnames", "err:load", &hn.set(".nroots", "2305843009213693952").bytes());
+    bx(g, &bdd, "nsuppvars=2^32-1,then-lists,then-nsuppvars=4", "ok",
+        &hn.set(".nsuppvars", "4294967295").after(".permids", ".nsuppvars 4").bytes());
+    bx(g, &bdd, "nvars=2^32-1,then-names,then-nvars=5", "ok", &hn.set(".nvars", "4294967295").after(".orderedvarnames", ".nvars 5").bytes());
+    bx(g, &bdd, "nnodes=2^64-1", "err:import", &hu.set(".nnodes", "18446744073709551615").bytes());
+    bx(g, &bcdd, "binary,nnodes=2^64-1", "err:import", &cb.set(".nnodes", "18446744073709551615").bytes());
+
+    g.case("boundary-header-separators-missing-fields");
+    for (what, exp, f) in [
+        ("key-tab-value", "ok", hu.raw(".nnodes", b".nnodes\t6")),
+        ("key-blank-tab-value-blank-tab", "ok", hu.raw(".nnodes", b".nnodes \t 6 \t")),
+        ("key-without-value", "err:load", hu.raw(".nnodes", b".nnodes")),
+        ("key-blank-only", "err:load", hu.raw(".nnodes", b".nnodes ")),
+        ("key-glued-to-value", "err:load", hu.raw(".nnodes", b".nnodes6")),
+        ("blank-before-key", "err:load", hu.raw(".nnodes", b" .nnodes 6")),
+        ("tab-before-key", "err:load", hu.raw(".nnodes", b"\t.nnodes 6")),
+        ("value-with-inner-blank", "err:load", hu.raw(".nnodes", b".nnodes 6 0")),
+        ("value-cr-in-the-middle", "err:load", hu.raw(".nnodes", b".nnodes 6\rx")),
+        ("value-two-cr-at-the-end", "ok", hu.raw(".nnodes", b".nnodes 6\r\r")),
+        ("empty-line", "err:load", hu.before(".nnodes", "")),
+        ("ids-tabs", "ok", hu.raw(".ids", b".ids\t0\t1\t2\t3")),
+        ("ids-key-only,nsuppvars=4", "err:load", hu.raw(".ids", b".ids")),
+        ("nodes-trailing-blank", "ok", hu.raw(".nodes", b".nodes ")),
+        ("nodes-tab-junk", "ok", hu.raw(".nodes", b".nodes\tjunk")),
+        ("nodes-glued-junk", "err:load", hu.raw(".nodes", b".nodesx")),
+        ("nodes-blank-before", "err:load", hu.raw(".nodes", b" .nodes")),
+        ("ver-2.0-trailing-blank", "ok", hu.raw(".ver", b".ver DDDMP-2.0 ")),
+        ("ver-3.0", "ok", hu.set(".ver", "DDDMP-3.0")),
+        ("ver-2.1", "err:load", hu.set(".ver", "DDDMP-2.1")),
+        ("ver-lower-case", "err:load", hu.set(".ver", "dddmp-2.0")),
+        ("ver-empty", "err:load", hu.raw(".ver", b".ver")),
+        ("mode-a-lower-case", "err:load", hu.set(".mode", "a")),
+        ("mode-AB", "err:load", hu.set(".mode", "AB")),
+        ("mode-empty", "err:load", hu.raw(".mode", b".mode")),
+        ("mode-A-then-tab", "ok", hu.raw(".mode", b".mode\tA\t")),
+        ("varinfo-5", "err:load", hu.set(".varinfo", "5")),
+        ("varinfo-04", "err:load", hu.set(".varinfo", "04")),
+        ("varinfo-empty", "err:load", hu.raw(".varinfo", b".varinfo")),
+        ("dd-line", "ok", hu.after(".varinfo", ".dd  my  dd ")),
+        ("dd-empty", "ok", hu.after(".varinfo", ".dd")),
+        ("unknown-key", "err:load", hu.after(".varinfo", ".nnode 6")),
+        ("key-prefix-of-known", "err:load", hu.raw(".nvars", b".nvar 5")),
+        ("key-upper-case", "err:load", hu.raw(".nvars", b".NVARS 5")),
+        ("crlf-everywhere", "ok", hu.with_eol(b"\r\n")),
+        ("cr-only-line-ends", "err:load", hu.with_eol(b"\r")),
+    ] {
+        bx(g, &bdd, what, exp, &f.bytes());
+    }
+    for (key, exp) in [
+        (".ver", "ok"), (".mode", "ok"), (".varinfo", "ok"), (".nnodes", "err:load"), (".nvars", "err:load"), (".nsuppvars", "err:load"),
+        (".ids", "err:load"), (".permids", "err:load"), (".nroots", "err:load"), (".rootids", "err:load"), (".nodes", "err:load"),
+    ] {
+        bx(g, &bdd, &format!("missing-{}", &key[1..]), exp, &hu.drop(key).bytes());
+    }
+    // binary file without `.mode`: the node section is read as ASCII
+    bx(g, &bcdd, "binary-missing-mode", "err:import", &cb.drop(".mode").bytes());
+    bx(g, &bcdd, "ascii-body-with-mode-B", "err:import", &ca.set(".mode", "B").bytes());
+
+    // ---------------------------------------------------------------------------------------
+    // ASCII node lines (`import_ascii`)
+    g.case("boundary-ascii-node-id-and-variable");
+    let f_ = id_f;
+    for (what, exp, line) in [
+        ("id=5", "err:import", "5 0 5 3".to_string()), ("id=6", "ok", "6 0 5 3".into()), ("id=7", "err:import", "7 0 5 3".into()),
+        ("id=06", "ok", "06 0 5 3".into()), ("id=6x", "err:import", "6x 0 5 3".into()), ("id=-6", "err:import", "-6 0 5 3".into()),
+        ("id-blank-before", "ok", " \t6 0 5 3".into()), ("id-missing", "err:import", " 0 5 3".into()), ("id=2^64", "err:import", "18446744073709551616 0 5 3".into()),
+        // variable (support rank) of the root: children at rank 1 (then) and 3 (else), 4 support variables
+        ("var=0", "ok", "6 0 5 3".into()), ("var=1,equals-then-rank", "err:import", "6 1 5 3".into()), ("var=2", "err:import", "6 2 5 3".into()),
+        ("var=3,equals-else-rank", "err:import", "6 3 5 3".into()), ("var=4,equals-nsuppvars", "err:import", "6 4 5 3".into()),
+        ("var=00", "ok", "6 00 5 3".into()), ("var=0x", "err:import", "6 0x 5 3".into()), ("var=-0", "err:import", "6 -0 5 3".into()),
+        ("var=2^32-1", "err:import", "6 4294967295 5 3".into()), ("var=2^32", "err:import", "6 4294967296 5 3".into()),
+        // children swapped: the else child is the higher one
+        ("swapped,var=0", "ok", "6 0 3 5".into()), ("swapped,var=1,equals-else-rank", "err:import", "6 1 3 5".into()),
+        // terminal children only: every rank is fine, 4 is out of range
+        ("terminal-children,var=3", "ok", format!("6 3 {id_t} {f_}")), ("terminal-children,var=4", "err:import", format!("6 4 {id_t} {f_}")),
+        // separators and missing fields
+        ("tabs", "ok", "6\t0\t5\t3".into()), ("double-blanks", "ok", "6  0  5  3 ".into()), ("no-blank-after-var", "err:import", "6 0".into()),
+        ("blank-after-var-no-children", "err:import", "6 0 ".into()), ("id-only", "err:import", "6".into()), ("id-blank", "err:import", "6 ".into()),
+        ("one-child", "err:import", "6 0 5".into()), ("three-children", "err:import", "6 0 5 3 1".into()), ("empty-line", "err:import", "".into()),
+    ] {
+        bx(g, &bdd, what, exp, &hu.node_line(5, line.as_bytes()).bytes());
+    }
+    // node 5 (rank 1, then child 3 at rank 3, else child 4 at rank 2): only the second child decides
+    for (what, exp, line) in [
+        ("node5,var=1", "ok", "5 1 3 4"), ("node5,var=2,equals-else-rank", "err:import", "5 2 3 4"), ("node5,var=3,equals-then-rank", "err:import", "5 3 3 4"),
+        ("node5,var=0,then-root-has-equal-rank", "err:import", "5 0 3 4"),
+    ] {
+        bx(g, &bdd, what, exp, &hu.node_line(4, line.as_bytes()).bytes());
+    }
+
+    g.case("boundary-ascii-child-ids");
+    for (what, exp, line) in [
+        ("then=5", "ok", "6 0 5 3"), ("then=6,own-id", "err:import", "6 0 6 3"), ("then=7", "err:import", "6 0 7 3"), ("then=1", "ok", "6 0 1 3"),
+        ("then=0", "ok", "6 0 0 3"), ("then=-0", "ok", "6 0 -0 3"), ("then=-5", "ok", "6 0 -5 3"), ("then=-6,own-id", "err:import", "6 0 -6 3"),
+        ("then=-1", "ok", "6 0 -1 3"), ("then=05", "ok", "6 0 05 3"), ("then=2^63-1", "err:import", "6 0 9223372036854775807 3"),
+        ("then=2^63", "err:import", "6 0 9223372036854775808 3"), ("then=-(2^63-1)", "err:import", "6 0 -9223372036854775807 3"),
+        ("else=3", "ok", "6 0 5 3"), ("else=5,same-as-then", "ok", "6 0 5 5"), ("else=6,own-id", "err:import", "6 0 5 6"), ("else=7", "err:import", "6 0 5 7"),
+        ("else=0", "ok", "6 0 5 0"), ("else=-3", "ok", "6 0 5 -3"), ("else=-6,own-id", "err:import", "6 0 5 -6"), ("else=4", "ok", "6 0 5 4"),
+        ("else=--3", "err:import", "6 0 5 --3"), ("else=3-", "err:import", "6 0 5 3-"), ("else=-", "err:import", "6 0 5 -"), ("else=-,blank,3", "ok", "6 0 5 - 3"),
+        // a terminal record needs a known descriptor: rank 0 is "0", false
+        ("both=0", "ok", "6 0 0 0"),
+    ] {
+        bx(g, &bdd, what, exp, &hu.node_line(5, line.as_bytes()).bytes());
+    }
+    // first inner node (id 3) and the terminal records
+    for (what, exp, idx, line) in [
+        ("node3,then=2", "ok", 2usize, format!("3 3 {id_t} {f_}")), ("node3,then=3,own-id", "err:import", 2, format!("3 3 3 {f_}")),
+        ("node3,else=3,own-id", "err:import", 2, format!("3 3 {id_t} 3")), ("node1,children=1,0", "ok", 0, format!("1 {} 1 0", if f_ == 1 { "F" } else { "T" })),
+        ("node1,children=0,1", "ok", 0, format!("1 {} 0 1", if f_ == 1 { "F" } else { "T" })),
+        ("node1,children=1,1,inner-node-with-own-id", "err:import", 0, "1 0 1 1".to_string()),
+        ("node1,one-child", "err:import", 0, "1 F 0".to_string()), ("node1,unknown-terminal", "err:import", 0, "1 X 0 0".to_string()),
+        ("node1,empty-terminal", "err:import", 0, "1  0 0".to_string()), ("node1,id=0", "err:import", 0, "0 F 0 0".to_string()),
+        ("node1,id=2", "err:import", 0, "2 F 0 0".to_string()),
+    ] {
+        bx(g, &bdd, what, exp, &hu.node_line(idx, line.as_bytes()).bytes());
+    }
+    bx(g, &bdd, "node1,terminal-not-utf8", "err:import", &hu.node_line(0, b"1 \xff 0 0").bytes());
+    bx(g, &bdd, "node1,terminal-not-utf8-truncated-sequence", "err:import", &hu.node_line(0, b"1 \xe2\x8a 0 0").bytes());
+    // BCDD: complemented edges, the single terminal
+    for (what, exp, line) in [
+        ("bcdd,then=4", "ok", "5 0 4 2"), ("bcdd,then=-4", "ok", "5 0 -4 2"), ("bcdd,then=5,own-id", "err:import", "5 0 5 2"), ("bcdd,else=-5,own-id", "err:import", "5 0 4 -5"),
+        ("bcdd,else=-4,same-node-complemented", "ok", "5 0 4 -4"), ("bcdd,var=1", "err:import", "5 1 4 2"), ("bcdd,else=0", "ok", "5 0 4 0"),
+    ] {
+        bx(g, &bcdd, what, exp, &ca.node_line(4, line.as_bytes()).bytes());
+    }
+
+    g.case("boundary-ascii-varinfo");
+    for vi in ["0", "1", "2", "3"] {
+        // every node line carries one more token between id and variable
+        let body: Vec<u8> = hu
+            .body
+            .split(|&b| b == b'\n')
+            .filter(|l| !l.is_empty())
+            .flat_map(|l| {
+                let p = l.iter().position(|&b| b == b' ').unwrap();
+                let mut o = l[..p].to_vec();
+                o.extend_from_slice(b" info");
+                o.extend_from_slice(&l[p..]);
+                o.push(b'\n');
+                o
+            })
+            .collect();
+        let f = hu.set(".varinfo", vi).with_body(&body);
+        bx(g, &bdd, &format!("varinfo={vi},extra-token"), "ok", &f.bytes());
+        bx(g, &bdd, &format!("varinfo={vi},no-extra-token"), "err:import", &hu.set(".varinfo", vi).bytes());
+        bx(g, &bdd, &format!("varinfo={vi},last-line-without"), "err:import", &f.node_line(5, b"6 0 5 3").bytes());
+        bx(g, &bdd, &format!("varinfo={vi},last-line-extra-token-only"), "err:import", &f.node_line(5, b"6 info").bytes());
+        bx(g, &bdd, &format!("varinfo={vi},last-line-extra-token-blank"), "err:import", &f.node_line(5, b"6 info ").bytes());
+        bx(g, &bdd, &format!("varinfo={vi},last-line-tabs"), "ok", &f.node_line(5, b"6\tinfo\t0\t5\t3").bytes());
+    }
+    bx(g, &bdd, "varinfo=4,extra-token", "err:import", &hu.node_line(5, b"6 info 0 5 3").bytes());
+
+    // ---------------------------------------------------------------------------------------
+    // binary node records (`import_bin`): the record of node 5 is replaced; nodes 1..4 are the
+    // terminal and the nodes of support rank 3, 2, 1 (levels 4, 3, 1 of the target)
+    let with_last = |rec: &[u8]| {
+        let mut b = pre4.clone();
+        b.extend_from_slice(rec);
+        cb.with_body(&b)
+    };
+    g.case("boundary-binary-child-ids");
+    for (pos, mk) in [
+        ("then", (|c: BC| b_rec(BC::Abs(0), c, true, BC::Term)) as fn(BC) -> Vec<u8>),
+        ("else", (|c: BC| b_rec(BC::Abs(0), BC::Abs(2), false, c)) as fn(BC) -> Vec<u8>),
+    ] {
+        for (c, exp) in [
+            (BC::Abs(0), "err:import"), (BC::Abs(1), "ok"), (BC::Abs(3), "ok"), (BC::Abs(4), "ok"), (BC::Abs(5), "err:import"), (BC::Abs(6), "err:import"),
+            (BC::Rel(0), "err:import"), (BC::Rel(1), "ok"), (BC::Rel(2), "ok"), (BC::Rel(4), "ok"), (BC::Rel(5), "err:import"), (BC::Rel(6), "err:import"),
+            (BC::Rel(127), "err:import"), (BC::Rel(128), "err:import"), (BC::Abs(128), "err:import"),
+            (BC::Rel1, "ok"), (BC::Term, "ok"),
+        ] {
+            bx(g, &bcdd, &format!("node5,{pos}={}", c.label()), exp, &with_last(&mk(c)).bytes());
+        }
+    }
+    // the first records of the file: node 1 / node 2 as inner nodes
+    {
+        let f1 = cb.set(".nnodes", "1").set(".rootids", "1");
+        let f2 = cb.set(".nnodes", "2").set(".rootids", "2");
+        let term = b_rec(BC::Term, BC::Term, false, BC::Term);
+        for (what, exp, rec) in [
+            ("node1,terminal-record", "ok", term.clone()),
+            ("node1,inner,children=term", "err:import", b_rec(BC::Abs(0), BC::Term, true, BC::Term)),
+            ("node1,inner,then=rel1", "err:import", b_rec(BC::Abs(0), BC::Rel1, true, BC::Term)),
+            ("node1,inner,then=rel1,else=rel1", "err:import", b_rec(BC::Abs(0), BC::Rel1, true, BC::Rel1)),
+            ("node1,inner,then=abs0", "err:import", b_rec(BC::Abs(0), BC::Abs(0), true, BC::Term)),
+            ("node1,inner,then=abs1", "err:import", b_rec(BC::Abs(0), BC::Abs(1), true, BC::Term)),
+            ("node1,inner,then=rel0", "err:import", b_rec(BC::Abs(0), BC::Rel(0), true, BC::Term)),
+            ("node1,inner,then=rel1arg", "err:import", b_rec(BC::Abs(0), BC::Rel(1), true, BC::Term)),
+        ] {
+            bx(g, &bcdd, what, exp, &f1.with_body(&rec).bytes());
+        }
+        for (what, exp, rec) in [
+            ("node2,children=term", "ok", b_rec(BC::Abs(0), BC::Term, true, BC::Term)),
+            ("node2,then=rel1", "ok", b_rec(BC::Abs(0), BC::Rel1, true, BC::Term)),
+            ("node2,then=abs1", "ok", b_rec(BC::Abs(0), BC::Abs(1), true, BC::Term)),
+            ("node2,then=abs2,own-id", "err:import", b_rec(BC::Abs(0), BC::Abs(2), true, BC::Term)),
+            ("node2,then=abs0", "err:import", b_rec(BC::Abs(0), BC::Abs(0), true, BC::Term)),
+            ("node2,then=rel1arg", "ok", b_rec(BC::Abs(0), BC::Rel(1), true, BC::Term)),
+            ("node2,then=rel2,id-0", "err:import", b_rec(BC::Abs(0), BC::Rel(2), true, BC::Term)),
+            ("node2,then=rel3,below-0", "err:import", b_rec(BC::Abs(0), BC::Rel(3), true, BC::Term)),
+            ("node2,then=rel0,own-id", "err:import", b_rec(BC::Abs(0), BC::Rel(0), true, BC::Term)),
+            ("node2,else=abs2,own-id", "err:import", b_rec(BC::Abs(0), BC::Term, true, BC::Abs(2))),
+            ("node2,else=rel2,id-0", "err:import", b_rec(BC::Abs(0), BC::Term, true, BC::Rel(2))),
+        ] {
+            let mut b = term.clone();
+            b.extend_from_slice(&rec);
+            bx(g, &bcdd, what, exp, &f2.with_body(&b).bytes());
+        }
+    }
+
+    g.case("boundary-binary-variable-codes");
+    // children of node 5: then = node 4 (rank 1), else = node 2 (rank 3); 4 support variables
+    for (v, exp) in [
+        (BC::Abs(0), "ok"), (BC::Abs(1), "err:import"), (BC::Abs(2), "err:import"), (BC::Abs(3), "err:import"), (BC::Abs(4), "err:import"), (BC::Abs(5), "err:import"),
+        (BC::Rel(0), "err:import"), (BC::Rel(1), "ok"), (BC::Rel(2), "err:import"), (BC::Rel1, "ok"),
+        // a terminal variable code makes the record a terminal: the argument byte of the else id is left over
+        (BC::Term, "err:import"),
+    ] {
+        bx(g, &bcdd, &format!("then-rank1,else-rank3,var={}", v.label()), exp, &with_last(&b_rec(v, BC::Rel1, false, BC::Abs(2))).bytes());
+        // swapped: only the else child is the close one
+        bx(g, &bcdd, &format!("then-rank3,else-rank1,var={}", v.label()), exp, &with_last(&b_rec(v, BC::Abs(2), false, BC::Rel1)).bytes());
+    }
+    // (without argument bytes the child codes of a terminal record are ignored)
+    bx(g, &bcdd, "var=term,then=rel1,else=~term", "ok", &with_last(&b_rec(BC::Term, BC::Rel1, true, BC::Term)).bytes());
+    // children at rank 2 (node 3) and 3 (node 2)
+    for (v, exp) in [
+        (BC::Abs(0), "ok"), (BC::Abs(1), "ok"), (BC::Abs(2), "err:import"), (BC::Abs(3), "err:import"), (BC::Rel(0), "err:import"), (BC::Rel(1), "ok"),
+        (BC::Rel(2), "ok"), (BC::Rel(3), "err:import"), (BC::Rel1, "ok"),
+    ] {
+        bx(g, &bcdd, &format!("then-rank2,else-rank3,var={}", v.label()), exp, &with_last(&b_rec(v, BC::Abs(3), true, BC::Abs(2))).bytes());
+    }
+    // terminal children: relative codes count from the number of levels of the target manager
+    // (5 here: ranks 0..3 are reached with distances 5..2), an absolute code must be < 4
+    for (v, exp) in [
+        (BC::Abs(3), "ok"), (BC::Abs(4), "err:import"), (BC::Abs(5), "err:import"), (BC::Abs(0), "ok"),
+        (BC::Rel(0), "err:import"), (BC::Rel(1), "err:import"), (BC::Rel(2), "ok"), (BC::Rel(5), "ok"), (BC::Rel(6), "err:import"), (BC::Rel1, "err:import"),
+    ] {
+        bx(g, &bcdd, &format!("terminal-children,5-levels,var={}", v.label()), exp, &with_last(&b_rec(v, BC::Term, true, BC::Term)).bytes());
+    }
+    // the same file in a manager with 7 levels (support at levels 0, 1, 3, 4) and with exactly the 4 support levels
+    {
+        let t7 = BTarget { kind: "bcdd", not: true, nvars: 7, l2v: vec![2, 0, 4, 1, 3, 5, 6] };
+        for (v, exp) in [(BC::Rel(2), "err:import"), (BC::Rel(3), "err:import"), (BC::Rel(4), "ok"), (BC::Rel(7), "ok"), (BC::Rel(8), "err:import"), (BC::Rel1, "err:import")] {
+            bx(g, &t7, &format!("terminal-children,7-levels,var={}", v.label()), exp, &with_last(&b_rec(v, BC::Term, true, BC::Term)).bytes());
+        }
+        let t4 = BTarget { kind: "bcdd", not: true, nvars: 4, l2v: vec![2, 0, 1, 3] };
+        let f4 = |rec: &[u8]| with_last(rec).set(".nvars", "4").set(".permids", "1 2 0 3");
+        bx(g, &t4, "4-levels,base", "ok", &f4(&root5).bytes());
+        for (v, exp) in [(BC::Rel(0), "err:import"), (BC::Rel(1), "ok"), (BC::Rel(4), "ok"), (BC::Rel(5), "err:import"), (BC::Rel1, "ok"), (BC::Abs(3), "ok"), (BC::Abs(4), "err:import")] {
+            bx(g, &t4, &format!("terminal-children,4-levels,var={}", v.label()), exp, &f4(&b_rec(v, BC::Term, true, BC::Term)).bytes());
+        }
+    }
+    // a child at rank 0: nothing can be above it
+    {
+        let f3 = cb.set(".nnodes", "3").set(".rootids", "3");
+        let pre2 = [b_rec(BC::Term, BC::Term, false, BC::Term), b_rec(BC::Abs(0), BC::Term, true, BC::Term)].concat();
+        for (v, exp) in [(BC::Rel1, "err:import"), (BC::Rel(0), "err:import"), (BC::Rel(1), "err:import"), (BC::Abs(0), "err:import"), (BC::Abs(1), "err:import")] {
+            let mut b = pre2.clone();
+            b.extend(b_rec(v, BC::Rel1, true, BC::Term));
+            bx(g, &bcdd, &format!("child-at-rank0,var={}", v.label()), exp, &f3.with_body(&b).bytes());
+        }
+        // and a child at rank 1 below a node of rank 0
+        let pre2 = [b_rec(BC::Term, BC::Term, false, BC::Term), b_rec(BC::Abs(1), BC::Term, true, BC::Term)].concat();
+        for (v, exp) in [(BC::Rel1, "ok"), (BC::Rel(0), "err:import"), (BC::Rel(1), "ok"), (BC::Rel(2), "err:import"), (BC::Abs(0), "ok"), (BC::Abs(1), "err:import")] {
+            let mut b = pre2.clone();
+            b.extend(b_rec(v, BC::Rel1, true, BC::Term));
+            bx(g, &bcdd, &format!("child-at-rank1,var={}", v.label()), exp, &f3.with_body(&b).bytes());
+        }
+    }
+
+    g.case("boundary-binary-escapes-and-integers");
+    {
+        // one support variable at level 0 of a manager with L levels: a node over terminal children
+        // with a relative variable code is accepted iff the decoded distance is exactly L
+        let hdr1 = |nnodes: u32| {
+            BFile::parse(format!(".ver DDDMP-2.0\n.mode B\n.varinfo 4\n.nnodes {nnodes}\n.nvars 1\n.nsuppvars 1\n.ids 0\n.permids 0\n.nroots 1\n.rootids {nnodes}\n.nodes\n.end\n").as_bytes()).unwrap()
+        };
+        let term = b_rec(BC::Term, BC::Term, false, BC::Term);
+        let code = (2u8 << 5) | (1 << 2); // variable: relative id, children: terminal, ~terminal
+        let tl = |n: u32| BTarget { kind: "bcdd", not: true, nvars: n, l2v: Vec::new() };
+        for (what, arg, value) in [
+            ("escaped-0a", vec![0u8, 1], 5u32), ("escaped-1a", vec![0, 3], 13), ("escaped-0d-then-04", vec![0, 2, 4], 770), ("raw-0a", vec![0x0a], 5),
+            ("raw-1a", vec![0x1a], 13), ("raw-0d-then-04", vec![0x0d, 4], 770), ("one-byte-fe", vec![0xfe], 127), ("two-bytes-03-escaped-00", vec![3, 0, 0], 128),
+            ("overlong-01-0a", vec![1, 0x0a], 5), ("overlong-escaped-0d-escaped-00...", vec![1, 1, 1, 0x0a], 5),
+        ] {
+            for l in [value - 1, value, value + 1] {
+                let mut b = term.clone();
+                b.push(code);
+                b.extend_from_slice(&arg);
+                bx(g, &tl(l), &format!("{what},value={value},levels={l}"), if l == value { "ok" } else { "err:import" }, &hdr1(2).with_body(&b).bytes());
+            }
+        }
+        for (what, exp, arg) in [
+            ("escaped-zero-argument", "err:import", vec![0u8, 0]), ("escape-04", "err:import", vec![0, 4]), ("escape-ff", "err:import", vec![0, 0xff]),
+            ("escape-then-end-of-input", "err:import", vec![0]), ("continuation-then-end-of-input", "err:import", vec![1]), ("no-argument", "err:import", vec![]),
+        ] {
+            let mut b = term.clone();
+            b.push(code);
+            b.extend_from_slice(&arg);
+            bx(g, &tl(5), what, exp, &hdr1(2).with_body(&b).with_tail(if arg.len() == 1 || arg.is_empty() { b"" } else { b".end\n" }).bytes());
+        }
+        // the node-code byte itself: escapes 00 00 / 00 01 / 00 02 / 00 03 decode to bytes whose
+        // variable code is `Terminal`
+        for (what, exp, rec) in [
+            ("node-code-escaped-00", "ok", vec![0u8, 0]), ("node-code-escaped-0a", "ok", vec![0, 1]), ("node-code-escaped-0d", "ok", vec![0, 2]),
+            ("node-code-escaped-1a", "ok", vec![0, 3]), ("node-code-escape-04", "err:import", vec![0, 4]), ("node-code-raw-0a", "ok", vec![0x0a]),
+            ("node-code-raw-1f", "ok", vec![0x1f]), ("node-code-raw-80-bit7-ignored", "ok", vec![0x80]), ("node-code-raw-20", "err:import", vec![0x20]),
+        ] {
+            bx(g, &tl(1), what, exp, &hdr1(1).with_body(&rec).bytes());
+        }
+        bx(g, &tl(1), "node-code-escape-at-end-of-input", "err:import", &hdr1(1).with_body(&[0]).with_tail(b"").bytes());
+        bx(g, &tl(1), "no-node-record", "err:import", &hdr1(1).bytes());
+        bx(g, &tl(1), "nnodes=0,nroots=0", "ok", &hdr1(1).set(".nnodes", "0").set(".nroots", "0").raw(".rootids", b".rootids").bytes());
+    }
+
+    // ---------------------------------------------------------------------------------------
+    // trailer and truncation
+    g.case("boundary-end-marker");
+    for (what, exp, tail) in [
+        ("end-newline", "ok", &b".end\n"[..]), ("end", "ok", b".end"), ("end-whitespace", "ok", b".end \t\r\n\x0c\n"), ("end-vertical-tab", "err:import", b".end\x0b"),
+        ("end-nul", "err:import", b".end\x00"), ("endx", "err:import", b".endx"), ("end-blank-x", "err:import", b".end x"), ("en", "err:import", b".en"),
+        ("nothing", "err:import", b""), ("end-twice", "err:import", b".end\n.end\n"), ("blank-before-end", "err:import", b" .end\n"),
+        ("newline-before-end", "err:import", b"\n.end\n"), ("END", "err:import", b".END\n"),
+    ] {
+        bx(g, &bdd, &format!("ascii,{what}"), exp, &hu.with_tail(tail).bytes());
+        bx(g, &bcdd, &format!("binary,{what}"), if what == "newline-before-end" { "err:import" } else { exp }, &cb.with_tail(tail).bytes());
+    }
+    g.case("boundary-truncation");
+    for (t, f) in [(&bdd, hn.bytes()), (&bcdd, cb.bytes())] {
+        for cut in 0..=f.len() {
+            // (the final line end is optional)
+            bx(g, t, &format!("{}-prefix-{cut}-of-{}", t.kind, f.len()), if cut + 1 >= f.len() { "ok" } else { "!ok" }, &f[..cut]);
+        }
+    }
+}
+
 fn generate(cfg: &GenCfg, rng: &mut Rng, w: &mut dyn Write) {
     let scale = cfg.scale.max(1);
     let mut g = G { w, world: None, kind: String::new(), nvars: 0, l2v: Vec::new(), case_no: 0, funcs: Vec::new(), allow_single_terminal_binary: false, export_keys: String::new() };
@@ -3611,6 +4423,15 @@ fn generate(cfg: &GenCfg, rng: &mut Rng, w: &mut dyn Write) {
         }
     }
     escape_coverage(cfg, rng, &mut g);
+    // every guard of the importer from both sides (deterministic, independent of tier and seed;
+    // last, so that the numbering of the cases above is unchanged)
+    boundaries(&mut g);
+}
+
+/// `gen --suite boundaries`: only the boundary families (debugging / timing)
+fn generate_boundaries(_cfg: &GenCfg, _rng: &mut Rng, w: &mut dyn Write) {
+    let mut g = G { w, world: None, kind: String::new(), nvars: 0, l2v: Vec::new(), case_no: 0, funcs: Vec::new(), allow_single_terminal_binary: false, export_keys: String::new() };
+    boundaries(&mut g);
 }
 
 /// One case whose binary BCDD exports walk through the escape / 7-bit integer layer: random
@@ -3850,8 +4671,9 @@ pub fn main_with(fuzz: bool) {
     let suite = args.windows(2).find(|w| w[0] == "--suite").map(|w| w[1].clone());
     let generator = match suite.as_deref() {
         Some("oom") => generate_oom,
+        Some("boundaries") => generate_boundaries,
         Some(s) => {
-            eprintln!("unknown suite {s} (known: oom)");
+            eprintln!("unknown suite {s} (known: oom, boundaries)");
             std::process::exit(2);
         }
         None if fuzz => generate_fuzz,
